@@ -1,10 +1,11 @@
 SPECIFICATION Spec
 CONSTANTS
-  NB = 5
-  OpKinds = {"add", "addu", "rem", "sync"}
+  NB = 3
+  OpKinds = {"add", "addu", "addx", "rem", "sync"}
   MaxLen = 2
   MaxLevel = 6
-  Inits = {"two", "deep", "wide"}
+  Inits = {"two", "wide"}
   Patterns = {"rand"}
+  Keeps = {FALSE}
   Emit = "state"
 INVARIANTS EmitCase
